@@ -14,7 +14,7 @@ Definition keyed (c : tcfg) (o : io) : Prop :=
   match o with
   | QLatest s i | QPrev s i | DelCursors s i _ => s = t_src c /\ i = t_ig c
   | DelRows t s i _ => t = t_tbl c /\ s = t_src c /\ i = t_ig c
-  | QLatestDep s _ => s = t_src c
+  | QLatestDep s deps => s = t_src c /\ deps = t_deps c
   | CopyRows t rs =>
       t = t_tbl c /\ Forall (fun r => r_tbl r = t_tbl c /\ r_src r = t_src c /\ r_ig r = t_ig c) rs
   | InsCursor x _ _ _ => c_src x = t_src c /\ c_ig x = t_ig c
@@ -104,8 +104,8 @@ Lemma K_after_head : forall again ln lh r, K again -> K (after_head v c again ln
 Proof.
   intros again ln lh r H. unfold after_head.
   destruct r as [| | | | | | |gn gh| |]; try apply K_bad.
-  destruct (t_deps c); [apply K_after_target; exact H|].
-  cbn. split; [reflexivity|]. intros r. apply K_after_dep. exact H.
+  destruct (t_deps c) eqn:Ed; [apply K_after_target; exact H|].
+  cbn. split; [split; [reflexivity|symmetry; exact Ed]|]. intros r. apply K_after_dep. exact H.
 Qed.
 
 Lemma K_with_local : forall again ln lh, K again -> K (with_local v c again ln lh).
